@@ -364,8 +364,8 @@ def r_provenance(c):
                         f"loop-variable names `{m.frag(elt, 50)}` ({p}) are not drawn from "
                         "the seeded name generator: they can coincide with a user's "
                         "argument name")
-    if n < 25:
-        raise AnalysisError(f"only {n} name-provenance obligations (floor 25)")
+    if n < 17:
+        raise AnalysisError(f"only {n} name-provenance obligations (floor 17)")
     # default prefix of _generate_name_for_temp itself
     fd = m.func("pytato.codegen._generate_name_for_temp")
     for a, d in zip(reversed(fd.args.args), reversed(fd.args.defaults)):
@@ -412,8 +412,8 @@ def r_generator_spaces(c):
                                 qn, f"name-space:id={m.frag(p, 30)}", m.loc(m.module_of(fd), call),
                                 "an instruction id is not minted by the instruction-id "
                                 "generator")
-    if n < 8:
-        raise AnalysisError(f"only {n} generator-name-space obligations (floor 8)")
+    if n < 5:
+        raise AnalysisError(f"only {n} generator-name-space obligations (floor 5)")
 
 
 def r_named(c):
@@ -589,8 +589,8 @@ def r_bound(c):
 SPEC = Spec(
     prop="C15",
     rules=[r_seed_first, r_provenance, r_generator_spaces, r_named, r_clash, r_bound],
-    floors={"R15-SEED-FIRST": 9, "R15-PROVENANCE": 25, "R15-NAMED": 4, "R15-CLASH": 8,
-            "R15-BOUND": 8},
+    floors={"R15-SEED-FIRST": 7, "R15-PROVENANCE": 25, "R15-NAMED": 2, "R15-CLASH": 6,
+            "R15-BOUND": 5},
     explanation=(
         "R15-SEED-FIRST (must-precede on every path): in generate_loopy, "
         "generate_numpy_like and preprocess all add_names calls that tell the "
